@@ -676,12 +676,37 @@ def _as_operand(v):
     return S(const(v))
 
 
+class OutOfBoundsView(Exception):
+    """the code under test built a strided view that reaches outside the buffer it was given.  On float arrays
+    NumPy would silently read foreign memory; on object arrays that is an interpreter crash, so it is stopped
+    here and reported (the candidate is then replayed on the plain code)."""
+
+
+def _check_bounds(x, shape, strides):
+    raw = x.view(_np.ndarray)
+    base = raw
+    while isinstance(base.base, _np.ndarray):
+        base = base.base
+    lo, hi = _np.lib.array_utils.byte_bounds(base)
+    start = raw.__array_interface__["data"][0]
+    shape = raw.shape if shape is None else tuple(shape)
+    strides = raw.strides if strides is None else tuple(strides)
+    if any(int(n) == 0 for n in shape):
+        return
+    mn = start + sum((int(n) - 1) * int(st) for n, st in zip(shape, strides) if st < 0)
+    mx = start + sum((int(n) - 1) * int(st) for n, st in zip(shape, strides) if st > 0) + raw.itemsize
+    if mn < lo or mx > hi:
+        raise OutOfBoundsView("as_strided(shape=%s, strides=%s) reaches %d bytes outside a buffer of %d bytes" % (
+            shape, strides, max(lo - mn, mx - hi), hi - lo))
+
+
 class _StrideTricks:
     def __init__(self, real):
         self._r = real
 
     def as_strided(self, x, shape=None, strides=None, subok=False, writeable=True):
         if isinstance(x, SymArray):
+            _check_bounds(x, shape, strides)
             r = self._r.as_strided(x.view(_np.ndarray), shape=shape, strides=strides, writeable=writeable)
             o = r.view(SymArray)
             o._nd = x._nd
